@@ -146,3 +146,65 @@ def run(F, rep):
                     okid = True
         rep.ob("C19-G4", "record id = header line without '>' and surrounding whitespace (trim removes a trailing CR)", okid,
                site="%s:%d" % (f.file, f.line_lo), key="C19-G4 | id normalisation")
+
+    # ------------------------------------------------------------ G5: the sample name taken from a file name ignores the compression suffix
+    g5_rule(F, rep)
+
+
+NAME_TEMPLATES = [(b, e) for b in ("s1", "asm.v1", "GCA_000001405.15", "sample-a_b") for e in ("fa", "fasta", "fna", "fas", "faa", "txt", None)]
+
+
+def g5_rule(F, rep):
+    """Every body of ragc-core / ragc that opens an input path through a gzip decoder and also returns a String derived
+    from that path's file name (the per-file sample name): the derivation is evaluated, with models of std's
+    Path/OsStr/str/Option helpers (strint.py), for a table of file names NAME and NAME.gz; both must give the same name -
+    otherwise gzipping an input changes the sample list."""
+    import strint
+    from expr import strip_tags
+    n = 0
+    for f in F.funcs.values():
+        if f.crate not in ("ragc_core", "ragc") or f.kind == "promoted":
+            continue
+        if not any(not t.get("indirect") and re.search(MULTI + "|" + SINGLE, t["callee"]) for _, t in f.calls()):
+            continue
+        ex = Exprs(f)
+        paths = [nm for l, nm in f.arg_names().items() if re.search(r"Path|PathBuf", f.locals[l]["ty"])]
+        # name expressions: String-typed components of the returned value that are built from file_stem/file_name of a path parameter
+        cands = []
+        for b in f.blocks:
+            for s_ in b["stmts"]:
+                if s_["k"] == "assign" and s_["pl"]["l"] == 0 and not s_["pl"]["p"]:
+                    e = strip_tags(ex.rvalue(s_["rv"]))
+                    for x in walk(e):
+                        if isinstance(x, tuple) and x[0] == "call" and not re.search(r"Path::(file_stem|file_name)$", x[1]) and \
+                                contains(x, lambda y: isinstance(y, tuple) and y[0] == "call" and re.search(r"Path::(file_stem|file_name)$", y[1])):
+                            cands.append(x)
+        # keep the outermost derivations only
+        outer = [c for c in cands if not any(c is not d and contains(d, lambda y: y == c) for d in cands)]
+        for e in outer:
+            ps = {x[1] for x in walk(e) if isinstance(x, tuple) and x[0] == "param"}
+            if len(ps) != 1 or not ps <= set(paths):
+                continue
+            pname = next(iter(ps))
+            n += 1
+            bad = []
+            undec = None
+            for base, ext in NAME_TEMPLATES:
+                plain = "/data/in/" + base + ("." + ext if ext else "")
+                try:
+                    a = strint.eval_tree(F, e, {pname: plain})
+                    b2 = strint.eval_tree(F, e, {pname: plain + ".gz"})
+                except (Undecidable, strint.Panic) as x:
+                    undec = str(x)
+                    break
+                if a != b2:
+                    bad.append("%s -> %r but %s.gz -> %r" % (_bn(plain), a, _bn(plain), b2))
+            rep.ob("C19-G5", "%s: the sample name derived from the file name is the same for NAME and NAME.gz" % f.key.split("::", 1)[-1],
+                   undec is None and not bad,
+                   detail=("undecidable construct: %s" % undec) if undec else ("; ".join(bad[:4]) + (" (%d of %d file names)" % (len(bad), len(NAME_TEMPLATES)) if bad else "%d file names x {plain, .gz} evaluated: %s" % (len(NAME_TEMPLATES), fmt(e)[:160]))),
+                   site="%s:%d" % (f.file, f.line_lo), key="C19-G5 | %s | name independent of .gz" % f.key)
+    rep.floor("C19-G5", n, 1, "file-name -> sample-name derivations next to a gzip opener (MultiFileIterator::open_file)")
+
+
+def _bn(p):
+    return p.rsplit("/", 1)[-1]
